@@ -70,7 +70,14 @@ def expected(call, args, solved):
         if fam == "id":
             return denote.denote_id(exprs_in, exprs_out, args)
         if fam == "elementwise":
-            f = getattr(np, op)
+            f2 = getattr(np, op)
+            if len(args) > 2 and op in ("add", "multiply", "logical_and", "logical_or", "maximum", "minimum", "logaddexp"):
+                import functools
+                f = lambda *xs: functools.reduce(f2, xs)   # "takes any number of scalars"
+            elif len(args) != (3 if op == "where" else 1 if op in ("exp", "log", "negative") else 2):
+                raise denote.Unsupported("wrong number of operands for a fixed-arity elementary operation")
+            else:
+                f = f2
             return [denote.denote_elementwise(f, exprs_in, exprs_out[0], args)]
         if fam == "reduce":
             return [denote.denote_reduce(REDUCE_F[op], exprs_in[0], exprs_out[0], args[0])]
